@@ -64,7 +64,24 @@ def build(facts):
 
     # ---- itype: derived from the code -----------------------------------------------------
     f_inf = facts.functions["odata_query.typing.infer_type"]
-    itype, finish = summarize(E, "itype", FuncRef(f_inf), pre=lambda n: z3.And(U.is_node(n), shape(n)))
+    def fullname(func):
+        return U.str_join(z3.StringVal("."), z3.Concat(PV.titems(fld("Identifier", "namespace", func)),
+                                                       z3.Unit(fld("Identifier", "name", func))))
+
+    def builtin_ns(func):
+        ns = PV.titems(fld("Identifier", "namespace", func))
+        return z3.Or(ns == z3.Empty(U.Seq), ns == z3.Unit(U.strv("geo")))
+
+    def arity_pre(n):
+        """built-in calls carry the number of arguments the OData table prescribes (established by the parser: C11)"""
+        func = fld("Call", "func", n)
+        cnt = z3.Length(PV.items(fld("Call", "args", n)))
+        name = fullname(func)
+        conds = [z3.Implies(name == z3.StringVal(fn), z3.And(cnt >= lo, cnt <= hi)) for fn, (lo, hi) in ARITY.items()]
+        return z3.Implies(z3.And(U.is_kind("Call", n), builtin_ns(func)), z3.And(*conds))
+
+    itype, finish = summarize(E, "itype", FuncRef(f_inf), max_paths=2500,
+                              pre=lambda n: z3.And(U.is_node(n), shape(n), arity_pre(n)))
 
     rng = {}
     holder = {}
@@ -72,12 +89,16 @@ def build(facts):
     def infer_contract(E, path, fref, args, kwargs):
         t = E.to_pv(args[0])
         r = itype(t)
+        if not rng.get("done"):
+            # while the summary is being derived: the declared result type Optional[Type] as induction
+            # hypothesis for recursive calls (checked for every non-recursive case once the summary exists)
+            path.assume_fact(z3.Or(U.is_tag("NoneV", r), U.is_tag("ClsV", r)))
         if rng.get("values"):
             # requires: a shaped, arity-correct tree (then no path of the summary raises: family `summary`)
             path.oblige("pre.shape", z3.And(U.is_node(t), shape(t), holder["wt"](t)))
             # range of itype (inductive: every non-recursive case returns one of these constants and the
             # recursive cases return itype of a sub-term) -- checked below when the summary is built
-            path.assume(z3.Or(*[r == v for v in rng["values"]]))
+            path.assume_fact(z3.Or(*[r == v for v in rng["values"]]))
         return E.from_pv(r)
     E.contracts["odata_query.typing.infer_type"] = infer_contract
     _, cases = finish()
@@ -94,16 +115,12 @@ def build(facts):
         else:
             ok = False
     rng["values"] = list(vals.values()) if ok else None
+    rng["done"] = True
+    if not ok:
+        from vc.propkit import SummaryFailed
+        raise SummaryFailed("infer_type returns something that is neither None nor a class on some path")
 
     # ---- otype: from the specification ----------------------------------------------------
-    def fullname(func):
-        return U.str_join(z3.StringVal("."), z3.Concat(PV.titems(fld("Identifier", "namespace", func)),
-                                                       z3.Unit(fld("Identifier", "name", func))))
-
-    def builtin_ns(func):
-        ns = PV.titems(fld("Identifier", "namespace", func))
-        return z3.Or(ns == z3.Empty(U.Seq), ns == z3.Unit(U.strv("geo")))
-
     def otype_body(e):
         body = U.none()
         for k in LITERALS:
@@ -160,7 +177,14 @@ def build(facts):
     wt = DefFun("wt", [PV], z3.BoolSort(), wt_body)
     holder["wt"] = wt
 
-    c = dict(E=E, S=S, U=U, PV=PV, shape=shape, itype=itype, otype=otype, wt=wt, cases=cases,
+    def in_range(t):
+        """range of itype, established by induction over its derived summary (leaf cases are these constants,
+        recursive cases return itype of a sub-term)"""
+        return z3.Implies(z3.And(U.is_node(t), shape(t), arity_pre(t)),
+                          z3.Or(U.is_tag("NoneV", itype(t)), U.is_tag("ClsV", itype(t))))
+
+    c = dict(E=E, S=S, U=U, PV=PV, shape=shape, itype=itype, otype=otype, wt=wt, cases=cases, in_range=in_range,
+             arity_pre=arity_pre,
              fullname=fullname, builtin_ns=builtin_ns)
     _CTX["c"] = c
     return c
@@ -172,6 +196,27 @@ def _consts(t):
     elif z3.is_app(t):
         for i in range(t.num_args()):
             yield from _consts(t.arg(i))
+
+
+def concrete_search(c, fn):
+    import itertools
+    from vc.deffun import to_rec
+    U, PV = c["U"], c["PV"]
+    ident = lambda n: U.node("Identifier", U.strv(n), U.tuplev(z3.Empty(U.Seq)))
+    atoms = [ident("f"), U.node("String", U.strv("s")), U.node("Integer", U.strv("1")),
+             U.node("List", PV.ListV(U.seq([U.node("Integer", U.strv("1"))]))), U.node("Boolean", U.strv("true"))]
+    parts = fn.split(".")
+    func = U.node("Identifier", U.strv(parts[-1]), U.tuplev(U.seq([U.strv(x) for x in parts[:-1]])))
+    lo, hi = ARITY.get(fn, (None, None))
+    counts = range(lo, hi + 1) if lo is not None else range(0, 4)
+    for n in counts:
+        for args in itertools.product(atoms, repeat=n):
+            node = U.node("Call", func, PV.ListV(U.seq(list(args))))
+            ok = z3.simplify(to_rec(z3.And(c["wt"](node), z3.Not(sound(c, node)))))
+            if z3.is_true(ok):
+                return {"e": U.decode(node), "inferred": U.decode(z3.simplify(to_rec(c["itype"](node)))),
+                        "odata_type": U.decode(z3.simplify(to_rec(c["otype"](node))))}
+    return None
 
 
 def sound(c, t):
@@ -189,7 +234,8 @@ for _k in LITERALS:
 
 
 def families(facts):
-    fams = ["cfg", "summary"] + [f"lemma.sound[{k}]" for k in facts.kinds]
+    fams = ["cfg", "summary", "lemma.wt_arity"] + [f"lemma.sound[{k}]" for k in facts.kinds if k != "Call"]
+    fams += [f"lemma.sound[Call:{fn}]" for fn in list(RETURN_TYPE) + ["<other>", "<other ns>"]]
     fams += [f"typecheck[{k}]" for k in ALLOWED_SPECS] + ["corollary.accept", "corollary.reject", "canary"]
     return fams
 
@@ -230,19 +276,58 @@ def run_family(facts, fam, tier):
 
     if fam.startswith("lemma.sound["):
         kind = fam[len("lemma.sound["):-1]
+        only = None
+        if kind.startswith("Call:"):
+            kind, only = "Call", kind[5:]
         consts = [z3.Const(f"f_{fn}", PV) for fn in facts.kind_fields[kind]]
         node = U.node(kind, *consts)
         hyps = [c["shape"](node), c["wt"](node)]
         # induction hypothesis on the sub-terms infer_type can look at: direct children and list items 0, 1
         for fc in consts:
             hyps.append(z3.Implies(z3.And(U.is_node(fc), c["wt"](fc)), sound(c, fc)))
-            for i in (0, 1):
+            hyps.append(c["in_range"](fc))
+            hyps.append(z3.Implies(z3.And(U.is_node(fc), c["wt"](fc)), c["arity_pre"](fc)))     # lemma.wt_arity
+            for i in (0, 1, 2):
                 it = PV.items(fc)[i]
                 hyps.append(z3.Implies(z3.And(U.is_tag("ListV", fc), z3.Length(PV.items(fc)) > i, c["wt"](it)),
                                        sound(c, it)))
+                hyps.append(c["in_range"](it))
+                hyps.append(z3.Implies(z3.And(U.is_node(it), c["wt"](it)), c["arity_pre"](it)))  # lemma.wt_arity
         src = src_of(f_ret if kind == "Call" else f_inf)
-        return [judge(E, f"C18:odata_query.typing.infer_type[{kind}]:lemma.sound", "lemma.sound", hyps, sound(c, node),
-                      src, timeout, {"e": node, "inferred": c["itype"](node), "odata_type": c["otype"](node)})]
+        wt_terms = {"e": node, "inferred": c["itype"](node), "odata_type": c["otype"](node)}
+        if kind != "Call":
+            return [judge(E, f"C18:odata_query.typing.infer_type[{kind}]:lemma.sound", "lemma.sound", hyps, sound(c, node),
+                          src, timeout, wt_terms)]
+        # one obligation per function name of the OData table (+ every other name / namespace): smaller queries,
+        # and a counter-model names the function
+        func = consts[0]
+        name = c["fullname"](func)
+        if only == "<other>":
+            notin = [name != z3.StringVal(fn) for fn in RETURN_TYPE]
+            return [judge(E, "C18:odata_query.typing.infer_return_type[<other name>]:lemma.sound", "lemma.sound",
+                          hyps + [c["builtin_ns"](func)] + notin, sound(c, node), src, 3 * timeout, wt_terms)]
+        if only == "<other ns>":
+            return [judge(E, "C18:odata_query.typing.infer_return_type[<other namespace>]:lemma.sound", "lemma.sound",
+                          hyps + [z3.Not(c["builtin_ns"](func))], sound(c, node), src, 3 * timeout, wt_terms)]
+        r = judge(E, f"C18:odata_query.typing.infer_return_type[{only}]:lemma.sound", "lemma.sound",
+                  hyps + [c["builtin_ns"](func), name == z3.StringVal(only)], sound(c, node), src, timeout, wt_terms)
+        if r["status"] == "undecided":
+            # the solver could neither prove nor refute: look for a small concrete counterexample by evaluating
+            # the derived summary and the specification on closed trees (a model finder, not a proof)
+            w = concrete_search(c, only)
+            if w is not None:
+                r["status"] = "refuted"
+                r["reason"] = "concrete counterexample found by closed evaluation after solver timeout"
+                r["witness"] = w
+                r["solver_output"] = "closed evaluation: itype != otype on " + str(w.get("e"))[:300]
+        return [r]
+
+    if fam == "lemma.wt_arity":
+        # wt(t) => arity_pre(t): used as a hypothesis instance in lemma.sound; arity_pre is trivially true off Call
+        consts = [z3.Const(f"f_{fn}", PV) for fn in facts.kind_fields["Call"]]
+        node = U.node("Call", *consts)
+        return [judge(E, "C18:lemma.wt_arity[Call]", "lemma.wt_arity", [c["shape"](node), c["wt"](node)],
+                      c["arity_pre"](node), None, timeout, {"e": node})]
 
     if fam.startswith("typecheck["):
         key = fam[len("typecheck["):-1]
